@@ -915,7 +915,7 @@ def rule_iterable_traversed_once(check, rule):
         # statements in source order at the top level of the function; a rebinding `p = list(p)` / `tuple(p)` ends the hazard
         uses = []        # (node, kind) kind in traverse / handoff
         mat = None
-        for st_ in fn.node.body:
+        for st_ in fn.main_body:
             for x in ast.walk(st_):
                 if isinstance(x, ast.Assign) and len(x.targets) == 1 and isinstance(x.targets[0], ast.Name) and x.targets[0].id == pname \
                         and isinstance(x.value, ast.Call) and isinstance(x.value.func, ast.Name) and x.value.func.id in ('list', 'tuple') \
